@@ -8,6 +8,7 @@ INVARIANT AlgEqDef
 INVARIANT RunIsNegation
 INVARIANT CompositeAny
 INVARIANT CacheSound
+INVARIANT CacheFollowsCurrent
 INVARIANT NotIgnored
 INVARIANT ProviderTransparent
 INVARIANT ParseLaw
